@@ -5,10 +5,10 @@ package mux
 import (
 	"encoding/json"
 	"errors"
-	"os"
 	"fmt"
 	"io"
 	"net"
+	"os"
 	"runtime"
 	"sync"
 	"sync/atomic"
@@ -21,6 +21,13 @@ import (
 )
 
 func TestProp_C11(t *testing.T) {
+	// the self check drives real traffic through two multiplexers: journal an equivalent case, so
+	// that a crash in there is attributed to a replayable case
+	ev.Get("C11").Journal(ev.Snapshot(C11Case{Kind: "mux", QLen: 8, IDs: []uint32{1},
+		Streams: []C11Stream{{Conn: 0, Dir: 0, Sizes: []int{maxPayload, maxPayload + 1}}, {Conn: 0, Dir: 1, Sizes: []int{}}},
+		Failure: C11Failure{Kind: "none"}, Final: C11Close{Side: 0, Closers: 1, Repeat: 1}}))
+	selfCheck()
+	ev.Get("C11").ClearJournal()
 	if e := selfCheck(); e != "" {
 		ev.Get("C11").SetExtra("selfcheck_failed", e)
 		defer func() {
@@ -45,21 +52,8 @@ func runC11(c C11Case) ev.Outcome {
 	if c.Kind == "listener" {
 		run = runC11Listener
 	}
-	o, hang := run(c)
-	if !hang || hangConfirmed.Load() {
-		return o
-	}
-	// a time clause failed: confirm by re-executing the same case before reporting it
-	o2, hang2 := run(c)
-	if hang2 {
-		hangConfirmed.Store(true)
-		return o2
-	}
-	if o2.Fail != "" {
-		return o2
-	}
-	o2.Overloaded = true
-	return o2
+	// a failed time clause is confirmed by re-executing the same case before it is reported
+	return withHangConfirmation(c, func() (ev.Outcome, bool) { return run(c) })
 }
 
 // ---------------------------------------------------------------------------------------
@@ -235,6 +229,7 @@ func expectedFrames(sizes []int) []frameRef {
 }
 
 func runC11Mux(c C11Case) (ev.Outcome, bool) {
+	defer settleGoroutines(runtime.NumGoroutine())
 	r := &c11run{c: c, poke: make(chan struct{}, 1), trigC: make(chan struct{}), anyErrC: make(chan struct{}),
 		primaryDoneC: make(chan struct{}), writersDoneC: make(chan struct{}), lenient: map[string]bool{}, classes: map[string]bool{}}
 	f := c.Failure
